@@ -6,8 +6,11 @@ package c06
 
 import (
 	"fmt"
+	"sync"
 	"testing"
+	"time"
 
+	"github.com/go-spring/log"
 	"pgregory.net/rapid"
 
 	"verifharness/vk"
@@ -159,6 +162,72 @@ func TestC06_RandomOrder(t *testing.T) {
 		}
 		if s.Policy == "Block" && len(res.Delivered) != res.SubmittedEnabled {
 			t.Fatalf("VERIF-VIOLATION C06: Block policy delivered %d of %d submitted items\nsetup: %s", len(res.Delivered), res.SubmittedEnabled, s)
+		}
+	})
+}
+
+// TestC06_ConcurrentDiscard: several producers overflow a full buffer at the same time while the
+// worker stays parked in a gate that is never released during the submission phase. Under the two
+// discard policies every log call must return (definitive: nothing the call may legitimately wait
+// for exists), whatever the interleaving of the producers among themselves.
+func TestC06_ConcurrentDiscard(t *testing.T) {
+	vk.Rule(rule)
+	rapid.Check(t, func(t *rapid.T) {
+		policy := rapid.SampledFrom([]string{"DiscardOldest", "Discard"}).Draw(t, "policy")
+		producers := rapid.IntRange(2, 8).Draw(t, "producers")
+		per := rapid.IntRange(200, 3000).Draw(t, "per")
+		vk.ResetRecs()
+		gate := vk.NewGate()
+		vk.SetBehavior("g", gate)
+		g := &vk.RecAppender{AppenderBase: log.AppenderBase{Name: "g"}}
+		_ = g.Start()
+		all := log.LevelRange{MinLevel: log.NoneLevel, MaxLevel: log.MaxLevel}
+		pol := map[string]log.BufferFullPolicy{"Discard": log.BufferFullPolicyDiscard, "DiscardOldest": log.BufferFullPolicyDiscardOldest}[policy]
+		l := &log.AsyncLogger{LoggerBase: log.LoggerBase{Name: "cd", Level: all}, AppenderRefs: log.AppenderRefs{AppenderRefs: []*log.AppenderRef{{Appender: g, Level: all}}}, BufferSize: 100, BufferFullPolicy: pol}
+		if err := l.Start(); err != nil {
+			t.Fatalf("VERIF-INCONCLUSIVE C06: %v", err)
+		}
+		done, p := vk.Within(20*time.Second, func() {
+			var wg sync.WaitGroup
+			for pr := 0; pr < producers; pr++ {
+				wg.Add(1)
+				go func() {
+					defer wg.Done()
+					for i := 0; i < per; i++ {
+						id := int64(pr)*1_000_000 + int64(i)
+						if i%3 == 0 {
+							l.Write([]byte(fmt.Sprintf("id=%d\n", id)))
+						} else {
+							e := log.GetEvent()
+							e.Level, e.Time, e.Tag, e.Fields = log.InfoLevel, time.Unix(0, 0), "_c06", []log.Field{log.Int("id", id)}
+							l.Append(e)
+						}
+					}
+				}()
+			}
+			wg.Wait()
+		})
+		vk.Eval()
+		vk.Class("concurrent-discard:" + policy)
+		vk.NonTrivial(fmt.Sprintf("concurrent-discard/%s/%d/%d", policy, producers, per))
+		if p != nil {
+			t.Fatalf("VERIF-VIOLATION C06: a log call panicked: %v", p)
+		}
+		if !done {
+			vk.HardFail("c06-hang", map[string]any{"policy": policy, "producers": producers, "per": per},
+				"C06: policy %s: log calls of %d concurrent producers did not return within 20 s while the appender was stalled (a log call waited for the appender)", policy, producers)
+		}
+		close(gate.Release)
+		if d, _ := vk.Within(30*time.Second, l.Stop); !d {
+			vk.HardFail("c06-hang", map[string]any{"policy": policy}, "C06: Stop did not return after the gate opened")
+		}
+		last := map[int64]int64{}
+		for _, it := range g.Items() {
+			pr, i := it.ID/1_000_000, it.ID%1_000_000
+			if prev, ok := last[pr]; ok && i <= prev {
+				t.Fatalf("VERIF-VIOLATION C06: producer %d's item #%d delivered after its item #%d (policy %s)", pr, i, prev, policy)
+			}
+			last[pr] = i
 		}
 	})
 }
